@@ -320,7 +320,7 @@ def r3_nowhere_else(ctx, prog, cg, summ):
     # callers of the dispatch chain
     allowed = {DISPATCH: {ACTION, ERROR_HANDLER}, OUT_DISPATCH: {DISPATCH}, OUT_CALLBYNAME: {OUT_DISPATCH},
                'snoopy_outputregistry_callById': set()}
-    reach = cg.reachable(roots)
+    reach = common.checked_reach(cg, prog) if roots else {}
     for fn, who in allowed.items():
         callers = {cs.caller.name for cs in cg.callers_of(fn) if cs.caller.key in reach}
         extra = callers - who
